@@ -1009,6 +1009,11 @@ where
 	)?;
 	info.hash = tip.1;
 
+	// transactions mined while the scan was running were (rightly) left alone by its
+	// repairs: record their outputs as confirmed now, so that the scan ends in the state
+	// a scan started after them would have produced
+	update_outputs(wallet_inst.clone(), keychain_mask, true)?;
+
 	wallet_lock!(wallet_inst, w);
 	let mut batch = w.batch(keychain_mask)?;
 	batch.save_last_scanned_block(info)?;
